@@ -71,6 +71,8 @@ def alphabet(ut=True, scalars=True):
         if_(["and", [CMP(">", V(N), C(2)), ["or", [CMP("<", V(M), C(1)), CMP("==", V(N), C(1))]]]]),
         if_(["or", [["and", [CMP("<", V(N), C(2)), CMP(">", V(M), C(1))]], CMP(">=", V(N), C(3))]]),
         if_(["not", ["or", [CMP("<", V(N), C(1)), CMP(">", V(M), C(1))]]]),
+        if_(["not", ["and", [CMP(">", V(N), C(0)), CMP("<", V(M), C(1))]]]),          # negation of a conjunction
+        if_(["and", [["not", CMP("<", V(N), C(1))], ["or", [["not", CMP(">", V(M), C(1))], CMP("==", V(N), C(3))]]]]),
         {"op": "fail"},
         {"op": "switch", "to": "p1"},
         {"op": "switch", "to": "p0"},                                   # a phase switching to itself
